@@ -1,0 +1,60 @@
+//go:build verif
+// +build verif
+
+package circuitbreaker
+
+// Machine-checked contracts for the circuit breaker (comment-only file).
+
+//@ global ErrBreaker != nil
+
+//@ ghost mock_calls int
+//@ ghost mock_result []interface{}
+//@ ghost mock_err error
+
+//@ type MockService(ctx, name, args) (result, err)
+//@   havoc
+//@   modifies ghost.mock_calls, ghost.mock_result, ghost.mock_err
+//@   ensures ghost.mock_calls == old(ghost.mock_calls) + 1
+//@   ensures same(result, ghost.mock_result) && same(err, ghost.mock_err)
+
+// IOHandler: one call of the breaker. State (failCount, lastFailTime);
+// parameters threshold, recoverTime; ghost.fwd counts invocations of next,
+// ghost.clock is the (non-decreasing) clock read by time.Now().
+//
+//@ func (*CircuitBreaker).IOHandler
+//@   prop C20
+//@   nopanic
+//@   requires cb != nil
+//@   stable cb.failCount, cb.lastFailTime, cb.threshold, cb.recoverTime
+//@   let open0 = cb.failCount > cb.threshold
+//@   let base = ite(cb.failCount > cb.threshold, cb.threshold >> 1, cb.failCount)
+//@   ensures [forwards_at_most_once] ghost.fwd == old(ghost.fwd) || ghost.fwd == old(ghost.fwd) + 1
+//@   ensures [rejects_only_while_open] ghost.fwd == old(ghost.fwd) ==>
+//@       open0 && old(ghost.clock) - old(cb.lastFailTime) < cb.recoverTime
+//@   ensures [rejection_is_break_error_and_leaves_state] ghost.fwd == old(ghost.fwd) ==>
+//@       err == ErrBreaker && response == nil &&
+//@       cb.failCount == old(cb.failCount) && cb.lastFailTime == old(cb.lastFailTime)
+//@   ensures [forwards_only_when_closed_or_recovered] ghost.fwd == old(ghost.fwd) + 1 && open0 ==>
+//@       ghost.clock - old(cb.lastFailTime) >= cb.recoverTime
+//@   ensures [closed_always_forwards] !open0 ==> ghost.fwd == old(ghost.fwd) + 1
+//@   ensures [recovered_always_forwards] open0 && old(ghost.clock) - old(cb.lastFailTime) >= cb.recoverTime ==>
+//@       ghost.fwd == old(ghost.fwd) + 1
+//@   ensures [success_resets] ghost.fwd == old(ghost.fwd) + 1 && err == nil ==> cb.failCount == 0
+//@   ensures [failure_counts] ghost.fwd == old(ghost.fwd) + 1 && err != nil ==>
+//@       cb.failCount == base + 1 && cb.lastFailTime == ghost.clock
+//@   ensures [panic_becomes_error] ghost.npanic > old(ghost.npanic) ==> err != nil
+//@   ensures [result_passthrough] ghost.fwd == old(ghost.fwd) + 1 && ghost.npanic == old(ghost.npanic) ==>
+//@       same(response, ghost.ret_response) && same(err, ghost.ret_err)
+
+//@ func (*CircuitBreaker).InvokeHandler
+//@   prop C20
+//@   requires cb != nil
+//@   stable cb.mockService
+//@   ensures [calls_next_once] ghost.fwd == old(ghost.fwd) + 1
+//@   ensures [mock_at_most_once] ghost.mock_calls == old(ghost.mock_calls) || ghost.mock_calls == old(ghost.mock_calls) + 1
+//@   ensures [mock_only_on_break_error] ghost.mock_calls == old(ghost.mock_calls) + 1 ==>
+//@       cb.mockService != nil && ghost.ret_err == ErrBreaker
+//@   ensures [mock_on_every_break_error] cb.mockService != nil && ghost.ret_err == ErrBreaker ==>
+//@       ghost.mock_calls == old(ghost.mock_calls) + 1 && same(result, ghost.mock_result) && same(err, ghost.mock_err)
+//@   ensures [otherwise_passthrough] ghost.mock_calls == old(ghost.mock_calls) ==>
+//@       same(result, ghost.ret_result) && same(err, ghost.ret_err)
